@@ -67,6 +67,20 @@ def _f(x):
     return float(Fraction(x))
 
 
+def _as_form(vals, form):
+    """one and the same list of real numbers as different containers / dtypes (round-3 hardening)"""
+    f = [float(Fraction(v)) for v in vals]
+    if form == "int64":
+        return np.array(f).astype("int64")
+    if form == "int_list":
+        return [int(v) for v in f]
+    if form == "float_list":
+        return f
+    if form == "float32":
+        return np.array(f, dtype="float32")
+    return np.array(f, dtype="float64")
+
+
 def _bits2d(mj):
     return np.array([c == "1" for c in mj["bits"]], dtype=bool).reshape(mj["h"], mj["w"])
 
@@ -198,6 +212,8 @@ class C16(PropertyCheck):
         return [Fraction(float(v)) for v in self._values_raw(rng, n, style)]
 
     def _values_raw(self, rng, n, style=None):
+        if n == 0:
+            return []
         style = style or rng.choice(["distinct", "distinct", "dyadic", "special", "mixed"])
         if style == "distinct":
             return [Fraction(v) for v in gen.distinct_ints(rng, n)]
@@ -260,6 +276,31 @@ class C16(PropertyCheck):
         c.update(kw)
         return c
 
+    def _form_arr_case(self, rng, m, tag, kind=None, flip=None):
+        """the array's values supplied as an integer-dtype ndarray, a plain Python int / float list,
+        float32, another structure, or through the `no_mask` / `full` constructors; scales as a bare
+        float or int; optional arguments given explicitly with their falsy defaults"""
+        n = sum(1 for r in m for b in r if not b)
+        c = self._arr_case(rng, m, tag, kind=kind, flip=flip)
+        form = rng.choice(["int64", "int_list", "float_list", "float32", "wrapped", "native_list"]
+                          + (["no_mask", "full"] if not any(b for r in m for b in r) else []))
+        c["in_form"] = form
+        c["store_native"] = False
+        if form in ("int64", "int_list"):
+            c["values"] = qlist(gen.distinct_ints(rng, n)) if n else []
+        elif form == "float32":
+            c["values"] = qlist([Fraction(v, 8) for v in gen.distinct_ints(rng, n)]) if n else []
+        elif form == "full":
+            c["values"] = qlist([rng.choice([Fraction(0), Fraction(-3, 2), Fraction(7)])] * n)
+        if rng.random() < 0.5:
+            s = rng.choice([Fraction(1), Fraction(2), Fraction(3), Fraction(1, 2), Fraction(0.05)])
+            c["scales"] = [q(s), q(s)]
+            c["scales_form"] = "float"  # (a bare int is not a `ty.PixelScales`: convert_pixel_scales_2d rejects it)
+        c["explicit_defaults"] = rng.random() < 0.7
+        if rng.random() < 0.3:
+            c["origin"] = ["0", "0"]
+        return c
+
     def _mask_case(self, rng, m, tag, flip=None):
         h, w = len(m), len(m[0])
         c = {"tag": tag, "kind": "mask2d", "mask": mask_json(m), "scales": self._scales(rng),
@@ -296,12 +337,25 @@ class C16(PropertyCheck):
                         yield self._junk_arr_case(rng, mj, "shape_exh_native_junk", flip=flip,
                                                   mode=["arith", "skip_mask"][(h + w + flip) % 2],
                                                   kind="array2d" if (h * w + flip) % 3 else "kernel2d")
+        # 1b. degenerate: no unmasked pixel at all (values = []), both flips; all-zero content
+        for (h, w) in ((1, 1), (2, 3), (3, 1)):
+            for flip in (False, True):
+                yield self._arr_case(rng, gen.full(h, w, True), "all_masked_array", kind="array2d", flip=flip)
+                c = self._arr_case(rng, gen.full(h, w, False), "all_zero_array", flip=flip)
+                c["values"] = ["0"] * (h * w)
+                yield c
+                yield self._mask_case(rng, gen.full(h, w, True), "all_masked_mask", flip=flip)
+                yield self._mask_case(rng, gen.full(h, w, False), "all_unmasked_mask", flip=flip)
         # 2. random larger shapes, structured masks
         n = 60 if tier == "quick" else 500
         for _ in range(n):
             h, w = rng.randint(1, 9), rng.randint(1, 9)
             m, mk = gen.random_mask(rng, h, w)
             yield self._arr_case(rng, m, f"rand_array_{mk}")
+            if rng.random() < 0.6:
+                mf, mkf = gen.random_mask(rng, rng.randint(1, 6), rng.randint(1, 6),
+                                          kind=rng.choice([None, None, "all"]))
+                yield self._form_arr_case(rng, mf, f"form_array_{mkf}")
             if any(b for r in m for b in r) and rng.random() < 0.5:
                 yield self._junk_arr_case(rng, m, f"rand_native_junk_{mk}")
             m2, mk2 = gen.random_mask(rng, rng.randint(1, 9), rng.randint(1, 9))
@@ -322,6 +376,18 @@ class C16(PropertyCheck):
                            "bits": "".join("1" if b else "0" for b in mask),
                            "scale": self._scales(rng, False)[0],
                            "path_style": rng.choice(["abs", "rel", "bare", "nested"])}
+        for ln in range(1, n1 + 2):
+            for form in ("int64", "int_list", "float_list", "float32", "no_mask"):
+                mask = [False] * ln if form == "no_mask" else [rng.random() < 0.4 for _ in range(ln)]
+                nun = mask.count(False)
+                vals = gen.distinct_ints(rng, nun) if nun else []
+                if form == "float32":
+                    vals = [Fraction(v, 8) for v in vals]
+                yield {"tag": "1d_form_array", "kind": "array1d", "flip": rng.random() < 0.5,
+                       "bits": "".join("1" if b else "0" for b in mask), "values": qlist(vals),
+                       "scale": self._scales(rng, False)[0], "store_native": False, "in_form": form,
+                       "scale_form": rng.choice(["float", "tuple"]), "explicit_defaults": rng.random() < 0.7,
+                       "path_style": rng.choice(["abs", "rel", "bare", "nested"])}
         for ln in range(2, n1 + 2):
             for _ in range(2 if tier == "quick" else 6):
                 mask = [rng.random() < 0.5 for _ in range(ln)]
@@ -437,6 +503,29 @@ class C16(PropertyCheck):
             nat = np.full(m.shape, 77.0)  # junk in masked cells must not reach the file
             nat[~m] = vals
             return cls(values=nat, mask=mask, store_native=True), sc
+        form = case.get("in_form")
+        if form:
+            ps = sc
+            if case.get("scales_form") == "float":
+                ps = sc[0]
+            elif case.get("scales_form") == "int":
+                ps = int(sc[0])
+            if form in ("no_mask", "full"):
+                h, w = m.shape
+                if form == "full":
+                    fv = _f(case["values"][0]) if case["values"] else 0.0
+                    return cls.full(fill_value=fv, shape_native=(h, w), pixel_scales=ps, origin=origin), sc
+                nat = [[_f(v) for v in case["values"][y * w:(y + 1) * w]] for y in range(h)]
+                return cls.no_mask(values=nat, pixel_scales=ps, origin=origin), sc
+            mask = aa.Mask2D(mask=m.tolist() if case.get("explicit_defaults") else m, pixel_scales=ps,
+                             origin=origin)
+            if form == "wrapped":
+                return cls(values=cls(values=vals, mask=mask), mask=mask), sc
+            if form == "native_list":
+                nat = np.zeros(m.shape)
+                nat[~m] = vals
+                return cls(values=nat.tolist(), mask=mask), sc
+            return cls(values=_as_form(case["values"], form), mask=mask), sc
         return cls(values=vals, mask=mask), sc
 
     def _impl_array2d(self, aa, case, sb):
@@ -446,8 +535,15 @@ class C16(PropertyCheck):
         obs = {"hdu": {"data": _data_json(hdu.data), "header": _cards(hdu.header)}}
         obs["from_hdu"] = _read2d(cls.from_primary_hdu(hdu))
         path = self._paths(sb, case["path_style"])
-        a.output_to_fits(file_path=path)
-        b = cls.from_fits(file_path=path, pixel_scales=sc, hdu=0)
+        if case.get("explicit_defaults"):
+            a.output_to_fits(file_path=path, overwrite=False)
+            kw = {"origin": (0.0, 0.0)}
+            if case["kind"] == "kernel2d":
+                kw["normalize"] = False
+            b = cls.from_fits(file_path=path, pixel_scales=sc, hdu=0, **kw)
+        else:
+            a.output_to_fits(file_path=path)
+            b = cls.from_fits(file_path=path, pixel_scales=sc, hdu=0)
         obs["from_file"] = _read2d(b)
         obs["file_headers"] = {"sci": _cards(b.header.header_sci_obj), "hdu": _cards(b.header.header_hdu_obj)}
         return obs
@@ -464,7 +560,8 @@ class C16(PropertyCheck):
         obs["from_hdu"] = {"mask": _mask_obs(back), "scales": qlist(back.pixel_scales)}
         path = self._paths(sb, case["path_style"], "mask.fits")
         mask.output_to_fits(file_path=path)
-        b = aa.Mask2D.from_fits(file_path=path, pixel_scales=sc, invert=case.get("invert", False))
+        b = aa.Mask2D.from_fits(file_path=path, pixel_scales=sc, invert=case.get("invert", False), hdu=0,
+                                origin=(0.0, 0.0), resized_mask_shape=None)
         obs["from_file"] = _mask_obs(b)
         obs["from_file_scales"] = qlist(b.pixel_scales)
         if case.get("resized"):
@@ -503,6 +600,14 @@ class C16(PropertyCheck):
             nat = np.zeros(mask.shape)
             nat[~mask] = vals
             a = aa.Array1D(values=nat, mask=m1, store_native=True)
+        elif case.get("in_form"):
+            form = case["in_form"]
+            ps = (s,) if case.get("scale_form") == "tuple" else s
+            if form == "no_mask":
+                a = aa.Array1D.no_mask(values=[_f(v) for v in case["values"]], pixel_scales=ps)
+            else:
+                m1 = aa.Mask1D(mask=mask.tolist() if case.get("explicit_defaults") else mask, pixel_scales=ps)
+                a = aa.Array1D(values=_as_form(case["values"], form), mask=m1)
         else:
             a = aa.Array1D(values=vals, mask=m1)
         hdu = a.hdu_for_output
